@@ -303,9 +303,14 @@ def runAdd (D : Dom) (ops : List Json) : Except String (List Json) := do
   let mut regs : List (Nat × DV D) := []
   let mut outs : List Json := []
   for op in ops do
-    let (r, o) ← addStep D regs op
-    regs := r
-    outs := outs ++ [o]
+    match addStep D regs op with
+    | .ok (r, o) =>
+        regs := r
+        outs := outs ++ [o]
+    | .error e =>
+        -- an operand register that was never defined (an earlier step failed): Python raises KeyError there
+        if e.startsWith "no register" then outs := outs ++ [Json.mkObj [("err", Json.str "KeyError")]]
+        else throw e
   pure outs
 
 /-! ## dispatch -/
@@ -346,7 +351,8 @@ def handle (j : Json) : Except String Ans := do
       let labels : List Nat ← get j "labels"
       let dist : List (List Rat) ← get j "dist"
       let nTest : Nat ← get j "nTest"
-      pure (ansOf (do let ro ← Neighbor.rowsOf p; Kernel.unitReduce ro labels dist nTest))
+      let nullLabel : Nat ← getD j "nullLabel" 0
+      pure (ansOf (do let ro ← Neighbor.rowsOf p; pure (Kernel.unitReduce ro labels dist nTest nullLabel)))
   | "neighbor" => do
       let p : Prov.P ← get j "prov"
       let simple : Bool ← getD j "simple" false
